@@ -5,6 +5,7 @@ COQ_FILES = ["Machine.v", "World.v", "World_proofs.v"]
 DRIVERS = [
     dict(name="life_verif32", src="life.cpp", defines=["LIFE_VERIF"], ops=["life32"]),
     dict(name="life_noop", src="life.cpp", defines=["LIFE_NOOP"], ops=["lifen"]),
+    dict(name="life_dylib", src="life.cpp", defines=["LIFE_DYLIB"], ops=["lifed"]),
 ]
 ALPHA14 = ["c:0:1", "c:0:0", "d:0", "m:0", "f:0", "fo:0", "fv:0:1", "fv:0:0", "fv:1:0", "r:0:0:1", "u:0", "l:0:5", "il:0:5", "lb:0:5", "lb:0:6", "ilb:0:6", "lb:1:5", "fa:0:5", "fa:0:6", "x:0:64", "gs:0:0",
            "c:1:1", "d:1", "x:1:4096", "r:1:1:1", "r:1:0:1", "m:1", "c:2:1", "d:2", "x:2:0", "q:0"]
@@ -30,6 +31,9 @@ def gen_cases(tier, rng):
     # the shipped no-op back end: same histories without failure injection / translation
     for c in list(cases[::7]):
         cases.append("lifen " + c.split(" ", 1)[1])
+    for c in list(cases[::11]):
+        if c.startswith("life32"):
+            cases.append("lifed " + c.split(" ", 1)[1])      # rlbox_dylib_sandbox
     return cases
 
 
